@@ -206,6 +206,8 @@ class Tr:
             return a >= b
         if isinstance(op, ast.In) and isinstance(b, SetBV):
             return b.member(a)
+        if isinstance(op, ast.NotIn) and isinstance(b, SetBV):
+            return z3.Not(b.member(a))
         if isinstance(op, ast.Is):
             if z3.is_expr(a) or z3.is_expr(b) or isinstance(a, SetBV) or isinstance(b, SetBV):
                 return False if (a is None or b is None) else (a is b)
@@ -434,6 +436,11 @@ class Queries:
                     self.cross['errors'] += 1   # timeout/unknown on the second solver: recorded, not a disagreement
         finally:
             os.unlink(path)
+
+    def unsupported(self, what):
+        """The source left the translatable subset: the obligation is inconclusive (never a pass, never an alarm)."""
+        self.unknown += 1
+        self.samples.append({'query': 'translation', 'result': 'unsupported', 'reason': str(what)[:300]})
 
     def result(self, functions, tables, validated_points=0, notes=''):
         return {
